@@ -41,6 +41,10 @@ pub struct OrlUser {
     /// 0 = never ignores; otherwise ignores payloads divisible by this while an even number of
     /// messages has been accepted
     pub ignore_mod: u32,
+    /// answers every first-hand message (payload < 100 000) with payload + 100 000 WITHOUT touching
+    /// its state (a stateless responder: the handler's state stays borrowed)
+    #[serde(default)]
+    pub echo: bool,
 }
 #[derive(Clone, Debug, PartialEq, Eq, Hash)]
 pub struct OrlState {
@@ -61,6 +65,13 @@ impl Actor for OrlUser {
     }
     fn on_msg(&self, _id: Id, state: &mut Cow<OrlState>, src: Id, msg: u32, o: &mut Out<Self>) {
         record(Ev::Handed { to: self.idx, from: usize::from(src), payload: msg });
+        if self.echo {
+            if msg < 100_000 {
+                record(Ev::Sent { from: self.idx, to: usize::from(src), payload: msg + 100_000 });
+                o.send(src, msg + 100_000);
+            }
+            return; // state untouched
+        }
         if self.ignore_mod != 0 && msg % self.ignore_mod == 0 && state.received.len() % 2 == 0 {
             return; // ignored: state untouched, nothing sent
         }
@@ -110,7 +121,8 @@ pub fn gen_orl(seed: u64) -> OrlScenario {
         };
         let start = mk(&mut rng, 4);
         let reactive = mk(&mut rng, 3);
-        users.push(OrlUser { idx: i, start, reactive, ignore_mod: if rng.chance(1, 4) { rng.range(2, 3) as u32 } else { 0 } });
+        let echo = rng.chance(1, 5);
+        users.push(OrlUser { idx: i, start, reactive, ignore_mod: if rng.chance(1, 4) { rng.range(2, 3) as u32 } else { 0 }, echo });
     }
     if users.iter().all(|u| u.start.is_empty()) {
         users[0].start.push((1, 901));
